@@ -48,22 +48,22 @@ func checkBezier(r *ev.Run, b model2d.BezierCurve, monotoneX bool) {
 	for k := 0; k <= 8; k++ {
 		t := float64(k) / 8
 		want := deCasteljau(b, t)
-		if got := b.Eval(t); got.Dist(want) > tol {
+		if got := b.Eval(t); !(got.Dist(want) <= tol) {
 			viol("Eval", t, fmt.Sprintf("Eval = %v, repeated linear interpolation gives %v", got, want))
 			return
 		}
-		if pv := model2d.XY(polys[0].Eval(t), polys[1].Eval(t)); pv.Dist(want) > tol*10 {
+		if pv := model2d.XY(polys[0].Eval(t), polys[1].Eval(t)); !(pv.Dist(want) <= tol*10) {
 			viol("Polynomials", t, fmt.Sprintf("polynomial form = %v, curve = %v", pv, want))
 			return
 		}
-		if tv := tr.Eval(t); math.Abs(tv.X-want.Y) > tol || math.Abs(tv.Y-want.X) > tol {
+		if tv := tr.Eval(t); !(math.Abs(tv.X-want.Y) <= tol) || !(math.Abs(tv.Y-want.X) <= tol) {
 			viol("Transpose", t, "Transpose().Eval is not the swapped point")
 			return
 		}
 		if k > 0 && k < 8 {
 			l, rr := b.Split(t)
 			for _, s := range []float64{0, 0.3, 1} {
-				if l.Eval(s).Dist(deCasteljau(b, s*t)) > tol || rr.Eval(s).Dist(deCasteljau(b, t+s*(1-t))) > tol {
+				if !(l.Eval(s).Dist(deCasteljau(b, s*t)) <= tol) || !(rr.Eval(s).Dist(deCasteljau(b, t+s*(1-t))) <= tol) {
 					viol("Split", t, fmt.Sprintf("the halves of Split(%g) do not trace the original curve at s=%g", t, s))
 					return
 				}
@@ -82,7 +82,7 @@ func checkBezier(r *ev.Run, b model2d.BezierCurve, monotoneX bool) {
 		}
 		if ref > 0 {
 			got := b.Length(1e-6*scale, 0)
-			if math.Abs(got-ref) > 1e-4*ref+1e-5*scale {
+			if !(math.Abs(got-ref) <= 1e-4*ref+1e-5*scale) {
 				viol("Length", 0, fmt.Sprintf("Length = %.9g, 4096-segment polyline = %.9g", got, ref))
 			}
 		}
@@ -92,11 +92,11 @@ func checkBezier(r *ev.Run, b model2d.BezierCurve, monotoneX bool) {
 			t := float64(k) / 8
 			p := deCasteljau(b, t)
 			ti := b.InverseX(p.X)
-			if math.IsNaN(ti) || math.Abs(deCasteljau(b, ti).X-p.X) > 1e-6*scale {
+			if math.IsNaN(ti) || !(math.Abs(deCasteljau(b, ti).X-p.X) <= 1e-6*scale) {
 				viol("InverseX", t, fmt.Sprintf("InverseX(%g) = %g, where the curve has x = %g", p.X, ti, deCasteljau(b, ti).X))
 				return
 			}
-			if y := b.EvalX(p.X); math.Abs(y-p.Y) > 1e-5*scale {
+			if y := b.EvalX(p.X); !(math.Abs(y-p.Y) <= 1e-5*scale) {
 				viol("EvalX", t, fmt.Sprintf("EvalX(%g) = %g, curve point has y = %g", p.X, y, p.Y))
 				return
 			}
@@ -186,7 +186,7 @@ func curveStage(r *ev.Run, full bool) {
 					l -= lens[i]
 				}
 				got := sc.Eval(t)
-				if got.Dist(want) > 1e-9*total {
+				if !(got.Dist(want) <= 1e-9*total) {
 					var pp []model2d.Coord
 					for _, i := range cur {
 						pp = append(pp, pa[i])
@@ -232,7 +232,7 @@ func curveStage(r *ev.Run, full bool) {
 				r.Violation("JoinedCurve/panic", fmt.Sprintf("%d sub-curves, t=%g: %s", n, t, p), c)
 				continue
 			}
-			if got.Dist(want) > 1e-9 {
+			if !(got.Dist(want) <= 1e-9) {
 				r.Violation("JoinedCurve/Eval", fmt.Sprintf("%d sub-curves, t=%g: Eval = %v, sub-curve %d at its local parameter gives %v", n, t, got, idx, want), c)
 			}
 		}
